@@ -22,6 +22,9 @@ var (
 	// letter (U+016F -> 'o', U+0141 -> 'A'): they belong to no name
 	c03Bytes   = []string{" ", "\t", "[", "]", "(", ")", "|", ".", "-", "=", "<", ">", "a", "z", "X", "Q", "1", "_", "$", "\xc3", "\u016f", "\u0141"}
 	c03BytesSm = []string{" ", "[", "]", "(", ")", "|", ".", "-", "=", "<", ">", "a", "X"}
+	// space (iv): short runs of bytes >= 0x80 (truncated / stray UTF-8 sequences) after a few prefixes
+	c03HighBytes = []string{"\x80", "\xa6", "\xbf", "\xc3", "\xe2", "\xef", "\xf0", "\xff"}
+	c03Prefixes  = []string{"", "X", "X ", "-a", "[X]", "X.", "--aa"}
 	c03Lexemes = []string{"[", "]", "(", ")", "|", "...", "-a", "-z", "--aa", "-ab", "OPTIONS", "X", "Q", "--", "=<v>"}
 	c03Argvs   = [][]string{{}, {"x"}, {"-a"}, {"--"}, {"x", "x"}, {"-ab", "x"}, {""}, {"-o", ""}, {"--out", "", "x"}}
 )
@@ -99,6 +102,12 @@ func runTerm(c *Ctx) {
 		})
 	}
 	c.Note("space (ii)", fmt.Sprintf("all sequences of <= %d lexemes over %q, joined by nothing, a space, a tab", maxLex, c03Lexemes))
+	for _, pre := range c03Prefixes {
+		for n := 1; n <= 3; n++ {
+			strSeqs(c03HighBytes, n, func(p []string) { doStr(pre + strings.Join(p, "")) })
+		}
+	}
+	c.Note("space (iv)", fmt.Sprintf("prefixes %q followed by every string of length <= 3 over the bytes %q", c03Prefixes, c03HighBytes))
 	// (iii) grammar-derived specs x argvs x every subset of env-backed options
 	type t3 struct {
 		leaves []string
